@@ -1,14 +1,14 @@
+\* manual run of the design model (checks/c09.py generates its own cfg per tier; this is the quick one)
 SPECIFICATION Spec
+SYMMETRY Sym
 CONSTANTS
-  Objs = {1, 2}
+  Objs = {o1, o2}
   Fams = {"fixed", "shift"}
   NMax = 3
-  G = 3
+  G = 2
   PMax = 2
   Forget = "none"
   LookupStart = 0
-INVARIANTS CacheFresh WellFormed InvCount InvBoundsMonotone InvValuesStrict InvValueInOwnClass
-  InvProbsNonNeg InvProbsSumOne InvEqualMass InvDomainInside InvDomainMass InvMassMatchesCdf
-  InvCdfMonotone InvMeanMatches InvLookup InvCumulative
+INVARIANTS CacheFresh AllObsInv
 PROPERTY RefusalKeeps
 CHECK_DEADLOCK FALSE
